@@ -316,6 +316,8 @@ impl Bytes {
             1 => vec![0u8; self.len],
             2 => vec![0xFFu8; self.len],
             3 => (0..self.len).map(|i| (i as u8).wrapping_add(self.seed as u8)).collect(),
+            // explicit payloads of copy programs live in a per-thread side table (C19)
+            200 => crate::props::c19::payload(self.seed),
             _ => {
                 let mut r = Rng::new(self.seed);
                 let mut v = vec![0u8; self.len];
